@@ -204,6 +204,9 @@ var bceRe = regexp.MustCompile(`^(.*\.go):(\d+):(\d+): Found (IsInBounds|IsSlice
 
 var bceCache = map[string][]bceSite{}
 
+// bceOverlay: per repository, the go command's -overlay file with the re-merged sources (remerge.go)
+var bceOverlay = map[string]string{}
+
 func runBCE(repo string, rels []string) ([]bceSite, error) {
 	ck := repo + "|" + strings.Join(rels, ",")
 	if s, ok := bceCache[ck]; ok {
@@ -218,6 +221,9 @@ func runBCE(repo string, rels []string) ([]bceSite, error) {
 
 func runBCE1(repo string, rels []string) ([]bceSite, error) {
 	args := []string{"build", "-gcflags=-l -d=ssa/check_bce/debug=1"}
+	if ov := bceOverlay[repo]; ov != "" {
+		args = append(args, "-overlay", ov)
+	}
 	for _, r := range rels {
 		args = append(args, "./"+r)
 	}
